@@ -15,7 +15,7 @@ SWEEP = ["history-substring-search-backward", "history-substring-search-forward"
 
 def gen(rnd, kind):
     hist = list(rnd.choice(HISTS))
-    typed = rnd.choice(["", "e", "ec", "git", "git s", "ma", "a", "ab", "zzz", "l", "make t", "s"])
+    typed = rnd.choice(["", "e", "ec", "git", "git s", "ma", "a", "ab", "zzz", "l", "make t", "s", "ls", "make", "pwd", "same", "only", "abcd"])
     cmds = E.type_text(typed)
     if kind == "walk":          # (a) k previous-history from the bottom
         cmds += [("previous-history",)] * rnd.randrange(1, len(hist) + 3)
@@ -28,6 +28,14 @@ def gen(rnd, kind):
     elif kind == "nav":         # any mix of the four navigation commands, judged at every step against the abstract walk
         for _ in range(rnd.randrange(1, 12)):
             cmds.append((rnd.choice(NAV + ["previous-history", "next-history", "previous-history"]),))
+    elif kind == "substr":      # (c) substring searches, search texts with characters that mean something in a regular expression
+        hist = list(rnd.choice([["grep a.c file", "echo abc", "ls *.go", "cd $HOME", "f(x) = 1", "a[0] = 2", "echo a+b"],
+                                ["make", "make test", "ls", "make"], ["x.y", "xzy", "x.y z", "1+1", "(a|b)"]]))
+        typed = rnd.choice(["a.c", "*.go", "$HOME", "f(", "a[0", "a+b", "x.y", "1+1", "(a|b", "ake", "ma", "s", "zzz"])
+        cmds = E.type_text(typed)
+        for _ in range(rnd.randrange(1, 5)):
+            cmds.append((rnd.choice(["history-substring-search-backward", "history-substring-search-backward",
+                                     "history-substring-search-forward"]),))
     elif kind == "search":      # (c)
         for _ in range(rnd.randrange(1, 7)):
             cmds.append((rnd.choice(SEARCH + ["history-search-backward"]),))
@@ -61,11 +69,11 @@ def check(rep, tier, seed):
         return
     info, broken = vlib.proof_step(rep, "C09")
     n = 500 if tier == "quick" else 15000
-    sess = [gen(rnd, rnd.choice(["walk", "updown", "nav", "nav", "search", "search", "mixed", "mixed", "isearch"])) for _ in range(n)]
+    sess = [gen(rnd, rnd.choice(["walk", "updown", "nav", "nav", "search", "search", "substr", "mixed", "mixed", "isearch"])) for _ in range(n)]
     modelled = E.modelled_names()
     for s in sess:
         s["modelled"] = all(c[0] in modelled for c in s["cmds"])
-    out = E.run(sess)
+    out = E.run(sess, end_eof=True)
     mism, bad = [], []
     stats = {"by_kind": {}, "search_steps": 0, "search_steps_that_moved": 0}
     nontriv = set()
@@ -80,7 +88,8 @@ def check(rep, tier, seed):
         steps = [o["first"]] + o["steps"]
         fails = []
         pan = [e for e in r["events"] if e["ev"] == "panic"]
-        rets = [e for e in r["events"] if e["ev"] == "return"]
+        # returns that accepted a line (the hang-up that ends every session returns an error)
+        rets = [e for e in r["events"] if e["ev"] == "return" and e.get("err") == "nil"]
         if s["kind"] == "isearch" and not pan and (rets or len(steps) >= len(s["cmds"])):
             got = "".join(chr(c) for c in rets[0]["line"]) if rets else "".join(chr(c) for c in steps[-1][0])
             if got != "" and got not in hist:
@@ -113,6 +122,24 @@ def check(rep, tier, seed):
                                      % (" ".join(names[nt:nt + k + 1]), lines[nt + k + 1], pos, want))
                         break
                 nontriv.add((tuple(hist), inprog, tuple(names[nt:])))
+            if s["kind"] == "substr":
+                # documented: the search text is what lies between the start of the CURRENT line and the cursor
+                for k, nm in enumerate(names[nt:]):
+                    before, cur_before = lines[nt + k], steps[nt + k][1]
+                    text = before[:cur_before] if cur_before < len(before) else before
+                    got = lines[nt + k + 1]
+                    if not (got == inprog or got == before or (got in hist and text in got)):
+                        fails.append("(c) %s put %r in the buffer: neither the text typed (%r), nor the buffer before, nor an entry containing the "
+                                     "search text %r" % (nm, got, inprog, text))
+                        break
+                    if k == 0 and nm.endswith("backward"):
+                        # the first search backward finds the newest entry that contains the text, when there is one
+                        cands = [h for h in hist if inprog in h]
+                        want = cands[-1] if cands else inprog
+                        if got != want:
+                            fails.append("(c) the first %s from %r gave %r; the newest entry containing it is %r" % (nm, inprog, got, want))
+                            break
+                nontriv.add((tuple(hist), inprog, tuple(names[nt:])))
             if s["kind"] == "updown" and hist:
                 if lines[-1] != inprog:
                     fails.append("(b) walking back down ends with %r, the text being typed was %r" % (lines[-1], inprog))
@@ -130,6 +157,7 @@ def check(rep, tier, seed):
                         nontriv.add((tuple(hist), inprog, tuple(names[nt:k + 1])))
         # non-destructive: the source is what it was
         hev = [e for e in r["events"] if e["ev"] == "hist"]
+        stats["sources_compared"] = stats.get("sources_compared", 0) + (1 if hev and not rets else 0)
         if hev and not rets:        # (a line accepted by the final Enter of an isearch session is recorded, rightly)
             after = ["".join(chr(c) for c in l) for l in (hev[0]["lines"] or [])]
             if after != hist:
@@ -137,13 +165,50 @@ def check(rep, tier, seed):
         if fails:
             bad.append({"hist": hist, "typed": s["typed"], "cmds": [c[0] for c in s["cmds"] if c[0] != "self-insert"], "kind": s["kind"],
                         "buffers": ["".join(chr(c) for c in st[0]) for st in steps], "failure": fails})
+    # ---- two calls: what the first call leaves behind (the undo logs of the history lines it walked over live on, the
+    # history grows by the accepted line) must not disturb the second: previous-history shows the entries of the source as
+    # it is now, newest first
+    import ptydrive as P
+    two = []
+    for _ in range(60 if tier == "quick" else 1500):
+        hist = list(rnd.choice([h for h in HISTS if h]))
+        typed = rnd.choice(["", "", "new line", "x"])
+        keys1 = [ch.encode() for ch in typed]
+        for _ in range(rnd.randrange(0, len(hist) + 3)):
+            keys1.append(rnd.choice([b"\x10", b"\x10", b"\x10", b"\x0e", b"\x1b<", b"\x1b>"]))
+        keys1.append(b"\r")
+        two.append({"hist": hist, "typed": typed, "keys1": keys1, "ups": len(hist) + 2})
+    res2 = P.run_many([{"scenario": {"calls": 2, "histories": [{"name": "h", "kind": "mem", "lines": t["hist"]}]},
+                        "chunks": t["keys1"] + [b"\x10"] * t["ups"] + [("eof",)],
+                        "inputrc": '"\\C-p": previous-history\n"\\C-n": next-history\n"\\e<": beginning-of-history\n"\\e>": end-of-history\n'} for t in two])
+    stats["two_call_sessions"] = len(two)
+    for t, r in zip(two, res2):
+        waits = [e for e in r["events"] if e["ev"] == "wait"]
+        hev = [e for e in r["events"] if e["ev"] == "hist"]
+        pan = [e for e in r["events"] if e["ev"] == "panic"]
+        fails = []
+        if pan or len(waits) != len(t["keys1"]) + 1 + t["ups"] or not hev:
+            fails.append("(d) the two-call session failed: %s %s" % (r["outcome"], [p["msg"] for p in pan][:1]))
+        else:
+            now = ["".join(chr(c) for c in l) for l in (hev[-1]["lines"] or [])]
+            base = len(t["keys1"])
+            for k in range(1, t["ups"] + 1):
+                got = "".join(chr(c) for c in waits[base + k]["line"])
+                want = now[len(now) - min(k, len(now))]
+                if got != want:
+                    fails.append("(a) second call: after %d previous-history the buffer is %r, the entry is %r (source now: %r)" % (k, got, want, now))
+                    break
+            nontriv.add((tuple(t["hist"]), t["typed"], tuple(t["keys1"])))
+        if fails:
+            bad.append({"hist": t["hist"], "typed": t["typed"], "kind": "two-calls", "keys_of_the_first_call": [list(k) for k in t["keys1"]],
+                        "buffers": ["".join(chr(c) for c in w["line"]) for w in waits], "failure": fails})
     rep.coverage.update({
-        "evaluations": len(sess),
+        "evaluations": len(sess) + len(two),
         "distinct_nontrivial": len(nontriv),
         "rule": "sessions typed into the real Readline over a pty with a bound in-memory history (empty, one entry, duplicates, multi-line, "
                 "multi-byte, entries that are prefixes of each other): an in-progress text, then walks (previous/next/beginning/end-of-history; kind nav: any mix, every step judged against the abstract walk of the theorem), "
                 "up-then-down walks, prefix searches (history-search-backward/forward), and mixed sequences with substring search, "
-                "up/down-line-or-history, infer-next-history, fetch-history; oracle: entries in order, in-progress text restored, search "
+                "up/down-line-or-history, infer-next-history, fetch-history; substring searches for texts with regular-expression metacharacters (literal containment, first match = newest containing entry); two-call sessions (walk, accept, then previous-history through the whole source in the second call); oracle: entries in order, in-progress text restored, search "
                 "results are the typed text or an entry with that prefix, no failure at either end, source unchanged; "
                 "non-trivial = distinct (history, typed text, search sequence)",
         "samples": [{"hist": sess[i]["hist"], "typed": sess[i]["typed"], "cmds": [c[0] for c in sess[i]["cmds"] if c[0] != "self-insert"]} for i in (0, 1)],
